@@ -1,5 +1,5 @@
 """Module that represents a numerical in a PDDL+ model."""
-from typing import Optional, Dict
+from typing import Optional, Dict, List
 
 from .pddl_predicate import SignatureType
 
@@ -74,42 +74,35 @@ class PDDLFunction:
         self.stored_value = value
 
     @property
-    def state_representation(self) -> str:
-        """Returns the state representation of the function."""
+    def _arguments(self) -> List[str]:
+        """The function's arguments with their multiplicity (repeated arguments first)."""
         function_variables = []
         for repeating_variable, num_repeats in self.repeating_variables.items():
             function_variables.extend([repeating_variable] * num_repeats)
         function_variables.extend(
             param for param in self.signature if param not in self.repeating_variables
         )
+        return function_variables
 
-        untyped_signature_str = " ".join(function_variables)
+    @property
+    def state_representation(self) -> str:
+        """Returns the state representation of the function."""
+        untyped_signature_str = " ".join(self._arguments)
         return f"(= ({self.name} {untyped_signature_str}) {self.value})"
 
     @property
     def state_typed_representation(self) -> str:
         """Returns the state representation of the function with the type signature."""
-        function_variables = []
-        for repeating_variable, num_repeats in self.repeating_variables.items():
-            function_variables.extend([repeating_variable] * num_repeats)
-        function_variables.extend(
-            param for param in self.signature if param not in self.repeating_variables
-        )
-
         signature_str_items = [
             f"{parameter_name} - {str(self.signature[parameter_name])}"
-            for parameter_name in function_variables
+            for parameter_name in self._arguments
         ]
         return f"(= ({self.name} {' '.join(signature_str_items)}) {self.value})"
 
     @property
     def untyped_representation(self) -> str:
-        """Returns the representation of the function without the type information.
-
-        Note:
-            This property is used only for lifted assignments so no need to check for the grounded items' multiplicity.
-        """
-        untyped_signature_str = " ".join(self.signature.keys())
+        """Returns the representation of the function without the type information."""
+        untyped_signature_str = " ".join(self._arguments)
         return f"({self.name} {untyped_signature_str})"
 
     def change_signature(self, old_to_new_param_names: Dict[str, str]) -> None:
